@@ -2367,7 +2367,8 @@ evhttp_get_body_length(struct evhttp_request *req)
 				return (-1);
 		}
 		ntoread = evutil_strtoll(content_length, &endp, 10);
-		if (*content_length == '\0' || *endp != '\0' || ntoread < 0) {
+		/* strtoll() would also accept a sign or leading whitespace */
+		if (!EVUTIL_ISDIGIT_(*content_length) || *endp != '\0' || ntoread < 0) {
 			event_debug(("%s: illegal content length: %s",
 				__func__, content_length));
 			return (-1);
